@@ -1,6 +1,6 @@
 (* C05 - property theorems only.  Each is closed by `exact` of a lemma of C05_Proofs.v / C05_HalfClose.v / C05_Delay.v. *)
 From Coq Require Import List NArith ZArith Bool.
-From Dae Require Import C05_Spec C05_Model C05_Proofs C05_HCDefs C05_HalfClose C05_Delay C05_PoolModel C05_PoolProofs C05_BufioModel C05_BufioProofs C05_SpliceModel C05_SpliceProofs C05_ReadyModel C05_ReadyProofs C05_LoopModel C05_LoopProofs.
+From Dae Require Import C05_Spec C05_Model C05_Proofs C05_HCDefs C05_HalfClose C05_Delay C05_PoolModel C05_PoolProofs C05_BufioModel C05_BufioProofs C05_SpliceModel C05_SpliceProofs C05_ReadyModel C05_ReadyProofs C05_LoopModel C05_LoopProofs C05_WritevModel C05_WritevProofs.
 From Dae.gen Require Import C05_Extracted.
 Import ListNotations.
 Open Scope N_scope.
@@ -267,6 +267,25 @@ Theorem C05_relay_loop_error_first_refuted :
   exists reads, fst (copy_loop false reads []) <> returned_until_error reads.
 Proof. exact error_first_refuted_proof. Qed.
 Print Assumptions C05_relay_loop_error_first_refuted.
+
+(* The gather write (C05_WritevModel: relayWritevAll + relayAdvanceSegments as a step machine over an oracle of
+   per-call results - accept up to n bytes, EAGAIN with re-entry of the callback, EINTR, a zero-length write).
+   For every segment list and every sequence of partial acceptances (stopping inside a segment, on a boundary,
+   anywhere), what the kernel accepted is a prefix of the concatenation of the segments - every byte exactly once,
+   in order - all of it when the function reports success, and the reported count is its length.  That the loop
+   hands THIS call's count to relayAdvanceSegments on the remaining list is extracted from the source. *)
+Theorem C05_gather_write_intact :
+  forall script segs w n wire,
+    writev_all c05_writev_advance_per_call script segs = (w, n, wire) ->
+    prefix_of wire (concat segs) /\ (w = WDone -> wire = concat segs) /\ n = length wire.
+Proof. exact writev_intact_proof. Qed.
+Print Assumptions C05_gather_write_intact.
+
+(* recomputing the pending list from the CUMULATIVE count over the in-place trimmed list is refuted *)
+Theorem C05_gather_write_cumulative_refuted :
+  exists script segs, let '(w, _, wire) := writev_all false script segs in w = WDone /\ wire <> concat segs.
+Proof. exact writev_cumulative_refuted_proof. Qed.
+Print Assumptions C05_gather_write_cumulative_refuted.
 
 (* Non-vacuity / regression examples: the inputs that refuted the full statements before the repairs. *)
 Example C05_nonvacuous_port53_fallback :
